@@ -56,7 +56,7 @@ func LoadProgram(repoDir string, patterns []string) (*Program, error) {
 	if len(errs) > 0 {
 		return nil, fmt.Errorf("load errors:\n%s", strings.Join(errs, "\n"))
 	}
-	prog, _ := ssautil.AllPackages(pkgs, ssa.InstantiateGenerics)
+	prog, _ := ssautil.AllPackages(pkgs, ssa.InstantiateGenerics|ssa.GlobalDebug)
 	prog.Build()
 	p := &Program{fset: pkgs[0].Fset, pkgs: pkgs, ssa: prog, byPath: map[string]*ssa.Package{}, ppkg: map[string]*packages.Package{},
 		globalObj: map[*ssa.Global]int{}, repoDir: repoDir, funcs: map[string]*ssa.Function{}}
